@@ -13,15 +13,16 @@ RULE = ("mode 1: two real Nodes (generated identity seeds, peer ids, key_rotatio
         "handshake clock readings that differ by 0, 1 ns, 1 us, 1 s or more) handshake with each other, adopt the two ends of a "
         "socketpair as their live sessions, and then run 1..10 Node::tick calls, each under the acting node's own clock "
         "reading placed just before, exactly at and just after its next rotation time (interval - 1 ns, interval, interval + "
-        "1 ns, multiples) or far from it; schedules where only one node ticks, where both tick at the same reading with the "
+        "1 ns, multiples) or far from it, and of repeated handshakes (the same public key and nonce reaching a node again, inside "
+        "/ at / after its cool-down of 0, 5 or 60 s, on one end or on both); schedules where only one node ticks, where both tick at the same reading with the "
         "same handshake reading (synchronised), and where the readings are one nanosecond apart. Observed after every tick: "
         "rotated?, both KeyManager keys, both live-session keys, both sessions open?, and whether a message sealed with one "
         "end's keys (encode_signed + ChaCha20) opens at the other end (decode_signed). mode 2: a bare KeyManager with "
         "intervals 0/1/5/60 s, material of 0..40 bytes and readings that also go backwards. Oracle (independent of the "
         "model): while both sessions are open the two live keys are equal and messages open in both directions; a tick "
         "rotates only when the node's own clock has advanced by at least its (clamped) interval since its last rotation. "
-        "A disagreement that first appears at a tick whose rotation was due is the recorded finding; any other disagreement "
-        "is a new violation. non-trivial = at least one rotation happened; distinct = distinct implementation outputs")
+        "after both ends have registered the handshake again since the last rotation they agree again. A disagreement that "
+        "first appears at a tick whose rotation was due is the recorded finding; any other disagreement is a new violation. non-trivial = at least one rotation happened; distinct = distinct implementation outputs")
 ASSUMPTIONS = ["each node's steady clock is an input: an operation carries the reading of the node that acts (one process, the "
                "harness sets the clock before each call)",
                "transport delivery is observed by sealing and opening one message with the two ends' actual keys through the "
@@ -43,11 +44,11 @@ def u64(v):
     return [(v >> 32) & 0xFFFFFFFF, v & 0xFFFFFFFF]
 
 
-def mode1(rng, iva, ivb, hsa, hsb, ops, tag):
+def mode1(rng, iva, ivb, hsa, hsb, ops, tag, cda=5, cdb=5):
     sa, sb = rng.randrange(1, 2 ** 32), rng.randrange(1, 2 ** 32)
     ida = [rng.randrange(256) for _ in range(32)]
     idb = [rng.randrange(256) for _ in range(32)]
-    ints = [1, _c12.draw_scalar(sa), _c12.draw_scalar(sb), sa, sb] + ida + idb + [iva, ivb] + u64(hsa) + u64(hsb) + [len(ops)]
+    ints = [1, _c12.draw_scalar(sa), _c12.draw_scalar(sb), sa, sb] + ida + idb + [iva, ivb, cda, cdb] + u64(hsa) + u64(hsb) + [len(ops)]
     for who, t in ops:
         ints += [who] + u64(t)
     return {"ints": ints, "tag": tag}
@@ -65,6 +66,11 @@ def generate(rng, tier):
     cases.append(mode1(rng, 5, 5, base, base, [(0, base + 5 * NS), (1, base + 5 * NS), (0, base + 11 * NS), (1, base + 11 * NS)], "synchronised"))
     # nobody is due
     cases.append(mode1(rng, 30, 30, base, base, [(0, base + 29 * NS), (1, base + 30 * NS - 1), (0, base + 30 * NS - 1)], "early"))
+    # the re-establishment branch: A rotates, then both ends take the handshake again after the cool-down
+    cases.append(mode1(rng, 5, 5, base, base, [(0, base + 5 * NS), (2, base + 6 * NS), (3, base + 6 * NS + 7)], "rehandshake-after-rotation"))
+    cases.append(mode1(rng, 5, 5, base, base, [(0, base + 5 * NS), (1, base + 7 * NS), (3, base + 8 * NS), (2, base + 9 * NS), (0, base + 9 * NS + 1)], "rehandshake-after-rotation"))
+    # inside the cool-down the repeated handshake is acknowledged but changes nothing
+    cases.append(mode1(rng, 5, 5, base, base, [(0, base + 5 * NS), (2, base + 6 * NS), (3, base + 6 * NS)], "rehandshake-in-cooldown", 60, 60))
     for _ in range(n):
         iva = rng.choice([0, 1, 5, 5, 6, 30, 3600, 5000])
         ivb = iva if rng.random() < 0.6 else rng.choice([0, 5, 6, 30, 3600])
@@ -73,7 +79,9 @@ def generate(rng, tier):
         last = {0: hsa, 1: hsb}
         now = {0: hsa, 1: hsb}
         iv = {0: clamp_iv(iva) * NS, 1: clamp_iv(ivb) * NS}
-        style = rng.choice(["mixed", "mixed", "early", "paired", "onesided"])
+        style = rng.choice(["mixed", "mixed", "early", "paired", "onesided", "rehandshake", "rehandshake"])
+        cda, cdb = (rng.choice([0, 5, 5, 60]), rng.choice([0, 5, 5, 60])) if style == "rehandshake" else (5, 5)
+        last_hs = {0: hsa, 1: hsb}
         ops = []
         for _ in range(rng.randrange(1, 11)):
             who = 0 if style == "onesided" else rng.randrange(2)
@@ -82,14 +90,29 @@ def generate(rng, tier):
             else:
                 t = max(now[who], last[who] + rng.choice([iv[who] - 1, iv[who], iv[who], iv[who] + 1, 2 * iv[who], 1, iv[who] // 2, 3 * iv[who] + 5]))
             group = [(who, t)]
+            if style == "rehandshake" and rng.random() < 0.5:
+                # one end, or both ends one after the other, take the peer's handshake again
+                cd = {0: cda * NS, 1: cdb * NS}
+                th = max(now[who], last_hs[who] + rng.choice([cd[who], cd[who] + 1, max(0, cd[who] - 1), 2 * cd[who] + 3, 0]))
+                group = [(2 + who, th)]
+                if rng.random() < 0.7:
+                    o = 1 - who
+                    group.append((2 + o, max(now[o], last_hs[o] + rng.choice([cd[o], cd[o] + 1, 2 * cd[o] + 3, max(0, cd[o] - 1)]))))
             if style == "paired":
                 group.append((1 - who, max(now[1 - who], t + rng.choice([0, 0, 1, -1]))))
             for w, tt in group:
-                now[w] = tt
-                if tt - last[w] >= iv[w]:
-                    last[w] = tt
+                if w >= 2:
+                    now[w - 2] = tt
+                    cdw = (cda if w == 2 else cdb) * NS
+                    if tt - last_hs[w - 2] >= cdw:
+                        last_hs[w - 2] = tt
+                        last[w - 2] = tt
+                else:
+                    now[w] = tt
+                    if tt - last[w] >= iv[w]:
+                        last[w] = tt
                 ops.append((w, tt))
-        cases.append(mode1(rng, iva, ivb, hsa, hsb, ops[:10], style))
+        cases.append(mode1(rng, iva, ivb, hsa, hsb, ops[:10], style, cda, cdb))
     for _ in range(n // 2):
         shared = [rng.randrange(256) for _ in range(32)]
         material = [rng.randrange(256) for _ in range(rng.choice([0, 1, 8, 16, 40]))]
@@ -130,11 +153,11 @@ def judge(case, impl, model):
     if impl and impl[0] in (-8, -9, -10):
         return {"fail": f"C39|setup-failed|{impl[0]}"}
     p = 5 + 64
-    iva, ivb = ints[p], ints[p + 1]
-    hsa = (ints[p + 2] << 32) | ints[p + 3]
-    hsb = (ints[p + 4] << 32) | ints[p + 5]
-    n = ints[p + 6]
-    p += 7
+    iva, ivb, cda, cdb = ints[p:p + 4]
+    hsa = (ints[p + 4] << 32) | ints[p + 5]
+    hsb = (ints[p + 6] << 32) | ints[p + 7]
+    n = ints[p + 8]
+    p += 9
     ops = [(ints[p + 3 * i], (ints[p + 3 * i + 1] << 32) | ints[p + 3 * i + 2]) for i in range(n)]
     if len(impl) != 2 + OBS * (n + 1):
         return {"fail": "C39|output-shape"}
@@ -159,14 +182,34 @@ def judge(case, impl, model):
     prev_agree = True
     rotated_any = False
     fails = []
+    last_hs = {0: hsa, 1: hsb}
+    cd = {0: cda * NS, 1: cdb * NS}
+    fresh = {0: True, 1: True}      # has this end registered the handshake key since the last rotation anywhere?
     for i, (who, t) in enumerate(ops):
         o = obs(i + 1)
+        if who >= 2:
+            w = who - 2
+            if not o["rot"]:
+                fails.append("C39|repeated-valid-handshake-refused")
+            if t - last_hs[w] >= cd[w]:
+                last_hs[w] = t
+                last[w] = t
+                fresh[w] = True
+            a = agree(o)
+            both_open = o["oa"] and o["ob"]
+            if both_open and fresh[0] and fresh[1] and not a:
+                fails.append("C39|ends-differ-although-both-re-established-the-session")
+            if both_open and not a and prev_agree:
+                fails.append("C39|desync-caused-by-a-repeated-handshake")
+            prev_agree = a or not both_open
+            continue
         w = 0 if who == 0 else 1
         due = t - last[w] >= iv[w]
         if due:
             last[w] = t
         if o["rot"]:
             rotated_any = True
+            fresh = {0: False, 1: False}
         both_open = o["oa"] and o["ob"]
         a = agree(o)
         if o["la"] == o["lb"] and o["ka"] == o["kb"] and o["la"] == o["ka"] and not (o["dab"] and o["dba"]):
